@@ -70,6 +70,8 @@ type Env struct {
 	curKind string
 	incon   error
 	heapIn  []MemRange
+	all     []*taskState
+	protect0 uint64
 }
 
 var elemSize = unsafe.Sizeof(secp.Element{})
@@ -475,6 +477,10 @@ func (x *Env) step(ts *taskState, oi int, op *Op) {
 	if out.trapped {
 		site, d := x.trapDetail(out.addr)
 		x.fail(ts, oi, op, "M-trap", site, d)
+		return
+	}
+	if st, ok := out.pval.(entropy.Stall); ok && out.panicked {
+		x.fail(ts, oi, op, "M-entropy", "stall", fmt.Sprintf("the call kept reading the randomness source through %d consecutive reads that delivered nothing (failed or empty) instead of failing", st.Reads))
 		return
 	}
 	if !x.sharedIntact(ts, oi, op) {
@@ -922,6 +928,12 @@ func (x *Env) retain(ts *taskState, oi int, op *Op, what string, b []byte) bool 
 	return false
 }
 
+func (x *Env) newTask(id, ne, ns int) *taskState {
+	ts := newTask(id, ne, ns)
+	x.all = append(x.all, ts)
+	return ts
+}
+
 func newTask(id, ne, ns int) *taskState {
 	ts := &taskState{id: id}
 	for i := 0; i < ne; i++ {
@@ -968,6 +980,7 @@ func Exec(run *Run, ar *arena.Arena, g *Globals, sites *SiteTable) (res Result) 
 			return Result{Incon: Inconclusive{"arena required"}, Stats: x.St}
 		}
 		x.Ar = ar
+		x.protect0 = ar.Protects
 		ar.Reset()
 		defer ar.Reset()
 	}
@@ -1029,7 +1042,7 @@ func Exec(run *Run, ar *arena.Arena, g *Globals, sites *SiteTable) (res Result) 
 
 	// ---- setup phase (sequential)
 	x.phase = "setup"
-	setup := newTask(-1, run.NE, run.NS)
+	setup := x.newTask(-1, run.NE, run.NS)
 	if len(run.Setup) > 0 {
 		if x.Ar != nil {
 			x.Ar.Protect()
@@ -1094,7 +1107,7 @@ func Exec(run *Run, ar *arena.Arena, g *Globals, sites *SiteTable) (res Result) 
 			ts = setup
 			ts.id = 0
 		} else {
-			ts = newTask(0, run.NE, run.NS)
+			ts = x.newTask(0, run.NE, run.NS)
 		}
 		if len(run.Tasks) == 1 {
 			x.runTask(ts, run.Tasks[0])
@@ -1114,7 +1127,7 @@ func Exec(run *Run, ar *arena.Arena, g *Globals, sites *SiteTable) (res Result) 
 				hasRandom[ti] = true
 			}
 		}
-		ts := newTask(ti, run.NE, run.NS)
+		ts := x.newTask(ti, run.NE, run.NS)
 		x.runTask(ts, ops)
 		if x.abort {
 			secp.VerifSetYieldHook(nil)
@@ -1159,7 +1172,7 @@ func Exec(run *Run, ar *arena.Arena, g *Globals, sites *SiteTable) (res Result) 
 	fns := make([]func(), len(run.Tasks))
 	for ti := range run.Tasks {
 		ti := ti
-		states[ti] = newTask(ti, run.NE, run.NS)
+		states[ti] = x.newTask(ti, run.NE, run.NS)
 		fns[ti] = func() {
 			x.runTaskConc(states[ti], run.Tasks[ti])
 		}
@@ -1217,8 +1230,16 @@ func (x *Env) finish() Result {
 		}
 	}
 	if x.Ar != nil {
-		x.St.Faults["arena_protect"] += x.Ar.Protects
+		x.St.Faults["arena_write_protect_armed"] += x.Ar.Protects - x.protect0
 	}
+	var oh uint64 = 0xcbf29ce484222325
+	for _, ts := range x.all {
+		oh = (oh ^ uint64(int64(ts.id))) * 0x100000001b3
+		for _, d := range ts.digest {
+			oh = (oh ^ d) * 0x100000001b3
+		}
+	}
+	x.St.ObsHash = oh
 	if x.incon != nil {
 		return Result{Incon: x.incon, Stats: x.St}
 	}
